@@ -210,6 +210,10 @@ def _offending_line(text):
     return 'no single line'
 
 
+def unrepresentable_surrogate(path):
+    return any(0xD800 <= ord(c) <= 0xDFFF and not 0xDC80 <= ord(c) <= 0xDCFF for c in path)
+
+
 def exc_sig(check, o, **kw):
     sig = {'check': check, 'exc': o['exc']}
     if o.get('class') == 'internal':
@@ -226,6 +230,12 @@ def roundtrip(entries, want, sort, stats, ref_want=None):
     -> list of (sig, message)."""
     out = []
     tr = 0
+    if any(isinstance(getattr(e, 'path', None), str) and unrepresentable_surrogate(e.path) for e in entries):
+        # a str holding a lone surrogate other than U+DC80..U+DCFF (surrogateescape of an undecodable
+        # filename byte) is neither a file name nor the decoding of any accepted Manifest text, and
+        # it is no "Unicode character": the statement does not reach it
+        stats.dontcare['path holds a surrogate that is not a surrogateescape byte'] += 1
+        return out
     m, o, text = g_dump(entries, sort)
     tr += 1
     if o['kind'] == 'exc':
@@ -347,9 +357,13 @@ def check_text_fixed_point(text, stats):
 
 # ---------------------------------------------------------------- family e: files
 
+def unrepresentable_surrogate(path):
+    return any(0xD800 <= ord(c) <= 0xDFFF and not 0xDC80 <= ord(c) <= 0xDCFF for c in path)
+
+
 def has_surrogate(specs):
     for s in specs:
-        if s[0] != 'TIMESTAMP' and any(0xD800 <= ord(c) <= 0xDFFF for c in s[1]):
+        if s[0] != 'TIMESTAMP' and unrepresentable_surrogate(s[1]):
             return True
     return False
 
